@@ -174,6 +174,9 @@ class C15(Prop):
     def _requests(self, acc, remote, irs):
         E = self.E
         n = nontrivial = unspec = 0
+        from ..monitors.keepsake import Keep
+
+        keep = Keep(limit=300)
         for state in STATES:
             for mode in MODES:
                 for fan in FANS:
@@ -208,9 +211,12 @@ class C15(Prop):
                                     continue
                                 key = sel[1]
                                 self._check_command(acc, cmd, irs, key, req)
+                                if n % 97 == 0:
+                                    keep.add(cmd, f"command object built for {req}")
                                 naive = irsel.MODE_PREFIX[mode] + (str(temp) if mode in ("COOL", "HEAT") else "") + irsel.FAN_SUFFIX[fan] + ("_d1" if swing == "ON" else "")
                                 if key != naive:
                                     nontrivial += 1
+        keep.verify(acc, "returned-command-changed-later", "the time thousands of later commands had been built on the same remote")
         # the same remote object, after thousands of different requests: some of the first ones again, a refused request twice in a
         # row (the second refusal is a refusal too), and an accepted one right after a refused one
         r2 = env.rng("C15", "again", irs["IRSetID"])
